@@ -57,7 +57,7 @@ def main(root, repo_src, plan_path):
         route = "/" + (call["mod"] + "." if call["mod"] else "") + call["svc"] + "/" + call["method"]
         # the server base class that registers this route, and the stub generated next to it (how the class is *named* is C19's subject)
         Base = Stub = None
-        for k, v in vars(mod).items():
+        for k, v in list(vars(mod).items()):
             if isinstance(v, type) and k.endswith("Base") and v.__module__ == mod.__name__ and hasattr(v, "__mapping__"):
                 try:
                     if route in v().__mapping__():
